@@ -1105,8 +1105,14 @@ class Engine:
                 return Int(simp(~a.t), a.bits, a.signed)
         if op == 'Neg' and isinstance(a, Int):
             return Int(simp(-a.t), a.bits, a.signed)
+        v = None
         if op == 'PtrMetadata':
             v = self.deref(st, a)
+            seen = 0
+            while isinstance(v, Ref) and seen < 3:
+                # a reference to a reference to the sequence (e.g. `&Vec<T>` coerced through a slice pattern)
+                v = self.deref(st, v)
+                seen += 1
             if isinstance(v, (Bytes, SeqV)):
                 return Int(v.len, 64, False)
             for o in (a, v):
@@ -1114,6 +1120,8 @@ class Engine:
                 am = re.match(r'^&?(?:mut )?\[.*; (\d+)\]$', getattr(o, 'ty', '') or '') if isinstance(o, Opaque) else None
                 if am:
                     return Int(BV(int(am.group(1)), 64), 64, False)
+        if op == 'PtrMetadata':
+            raise Unsupported('unop PtrMetadata on %r -> %s' % (a, (repr(v)[:80] if v is not None else None)))
         raise Unsupported('unop %s on %r' % (op, a))
 
     def cast(self, st, a, ty, kind):
